@@ -223,4 +223,112 @@ Gokigen(h, w, p, T) ==
     LET g == GokigenGraph(h, w, T) IN
     /\ Forest(g, E(g))
     /\ \A pt \in 0 .. (h + 1) * (w + 1) - 1 : p[pt + 1] >= 0 => Deg(g, E(g), pt) = p[pt + 1]
+
+(* ------------------------------------------------------------------ number-grid puzzles *)
+(* a grid is a flat row-major sequence of integers; rows / columns as sequences *)
+RowSeq(w, g, y) == [x \in 1 .. w |-> g[y * w + x]]
+ColSeq(h, w, g, x) == [y \in 1 .. h |-> g[(y - 1) * w + x + 1]]
+Distinct(s) == \A i, j \in DOMAIN s : i # j => s[i] # s[j]
+RevSeq(s) == [i \in DOMAIN s |-> s[Len(s) + 1 - i]]
+
+(* sudoku with n x n boxes (size n*n): rows, columns, boxes all different; givens (< 1 = empty) *)
+SudokuGrid(n, g) ==
+    LET sz == n * n IN
+    /\ \A y \in 0 .. sz - 1 : Distinct(RowSeq(sz, g, y))
+    /\ \A x \in 0 .. sz - 1 : Distinct(ColSeq(sz, sz, g, x))
+    /\ \A by \in 0 .. n - 1, bx \in 0 .. n - 1 :
+          Cardinality({g[(by * n + dy) * sz + bx * n + dx + 1] : dy \in 0 .. n - 1, dx \in 0 .. n - 1}) = sz
+Givens(p, g) == \A c \in DOMAIN p : p[c] >= 1 => g[c] = p[c]
+
+(* building (skyscrapers): Latin square 1..n; a clue (< 1 = none) is the number of buildings visible from that side *)
+VisibleCount(s) == Cardinality({i \in DOMAIN s : \A j \in 1 .. i - 1 : s[j] < s[i]})
+LatinGrid(n, g) == (\A y \in 0 .. n - 1 : Distinct(RowSeq(n, g, y))) /\ (\A x \in 0 .. n - 1 : Distinct(ColSeq(n, n, g, x)))
+Building(n, up, dw, lf, rg, g) ==
+    \A i \in 1 .. n :
+        /\ up[i] >= 1 => VisibleCount(ColSeq(n, n, g, i - 1)) = up[i]
+        /\ dw[i] >= 1 => VisibleCount(RevSeq(ColSeq(n, n, g, i - 1))) = dw[i]
+        /\ lf[i] >= 1 => VisibleCount(RowSeq(n, g, i - 1)) = lf[i]
+        /\ rg[i] >= 1 => VisibleCount(RevSeq(RowSeq(n, g, i - 1))) = rg[i]
+
+(* doppelblock: every line holds two black cells (0) and 1..n-2 once; a clue (< 0 = none) is the sum between the blacks *)
+DoppelLine(n, s) == Cardinality({i \in DOMAIN s : s[i] = 0}) = 2 /\ \A v \in 1 .. n - 2 : Cardinality({i \in DOMAIN s : s[i] = v}) = 1
+BetweenSum(s) ==
+    LET z == {i \in DOMAIN s : s[i] = 0}
+        a == CHOOSE i \in z : \A j \in z : i <= j
+        b == CHOOSE i \in z : \A j \in z : i >= j
+        RECURSIVE Sum(_)
+        Sum(i) == IF i >= b THEN 0 ELSE s[i] + Sum(i + 1)
+    IN Sum(a + 1)
+DoppelGrid(n, g) == (\A y \in 0 .. n - 1 : DoppelLine(n, RowSeq(n, g, y))) /\ (\A x \in 0 .. n - 1 : DoppelLine(n, ColSeq(n, n, g, x)))
+Doppelblock(n, row, col, g) ==
+    \A i \in 1 .. n : (row[i] >= 0 => BetweenSum(RowSeq(n, g, i - 1)) = row[i])
+                     /\ (col[i] >= 0 => BetweenSum(ColSeq(n, n, g, i - 1)) = col[i])
+
+(* fillomino: every maximal region of equal numbers has exactly that many cells.  A solution is the size grid of a
+   partition into connected blocks in which no two orthogonally adjacent blocks have the same size. *)
+SizeGrid(rgs) == [c \in DOMAIN rgs |-> Cardinality({d \in DOMAIN rgs : rgs[d] = rgs[c]})]
+FillominoPartition(h, w, rgs) ==
+    /\ \A B \in RoomsOfRgs(rgs) : ConnCells(h, w, B)
+    /\ \A c, d \in Cells(h, w) : (OrthAdj(w, c, d) /\ rgs[c + 1] # rgs[d + 1]) => SizeGrid(rgs)[c + 1] # SizeGrid(rgs)[d + 1]
+
+(* view: S = numbered cells (connected); a number is the count of empty cells seen in the four directions up to the
+   next numbered cell or the edge; orthogonally adjacent numbers differ; clue (< 0 = none) fixes a numbered cell *)
+ViewCount(h, w, S, c) ==
+    LET look(dy, dx) == LET RECURSIVE Go(_, _)
+                            Go(y, x) == IF InBoard(h, w, y, x) /\ Cell(w, y, x) \notin S THEN 1 + Go(y + dy, x + dx) ELSE 0
+                        IN Go(RowOf(w, c) + dy, ColOf(w, c) + dx)
+    IN look(-1, 0) + look(1, 0) + look(0, -1) + look(0, 1)
+ViewNums(h, w, S) == [c \in 1 .. h * w |-> IF c - 1 \in S THEN ViewCount(h, w, S, c - 1) ELSE 0]
+ViewValid(h, w, S) ==
+    /\ ConnCells(h, w, S)
+    /\ \A c, d \in S : OrthAdj(w, c, d) => ViewCount(h, w, S, c) # ViewCount(h, w, S, d)
+View(h, w, p, S) == \A c \in Cells(h, w) : p[c + 1] >= 0 => (c \in S /\ ViewCount(h, w, S, c) = p[c + 1])
+
+(* geradeweg: the loop visits every clue cell (n >= 1); each straight segment of the loop through a clue cell has length n *)
+RunLen(h, w, St, y, x, dy, dx) ==    \* consecutive loop steps from cell (y, x) in direction (dy, dx)
+    LET RECURSIVE Go(_, _)
+        Go(yy, xx) == IF Step(h, w, St, yy, xx, yy + dy, xx + dx) THEN 1 + Go(yy + dy, xx + dx) ELSE 0
+    IN Go(y, x)
+Geradeweg(h, w, p, St) ==
+    \A y \in 0 .. h - 1, x \in 0 .. w - 1 :
+        At(p, w, y, x) >= 1 =>
+           /\ Cell(w, y, x) \in Visited(h, w, St)
+           /\ (RunLen(h, w, St, y, x, 0, -1) + RunLen(h, w, St, y, x, 0, 1) > 0) =>
+                  RunLen(h, w, St, y, x, 0, -1) + RunLen(h, w, St, y, x, 0, 1) = At(p, w, y, x)
+           /\ (RunLen(h, w, St, y, x, -1, 0) + RunLen(h, w, St, y, x, 1, 0) > 0) =>
+                  RunLen(h, w, St, y, x, -1, 0) + RunLen(h, w, St, y, x, 1, 0) = At(p, w, y, x)
+
+(* castle wall: a clue cell is <<a, c>>: a = YEmpty (no clue) or dir * 100 + n (1 up, 2 down, 3 left, 4 right: n loop
+   segments on the ray in that direction); c = 0 none, 1 white (inside the loop), 2 black (outside).
+   The loop avoids clue cells.  A cell off the loop is inside iff a ray from it crosses the loop an odd number of times. *)
+SegsOnRay(h, w, St, y, x, d) ==
+    CASE d = 1 -> Cardinality({yy \in 0 .. y - 1 : Step(h, w, St, yy, x, yy + 1, x)})
+      [] d = 2 -> Cardinality({yy \in y .. h - 2 : Step(h, w, St, yy, x, yy + 1, x)})
+      [] d = 3 -> Cardinality({xx \in 0 .. x - 1 : Step(h, w, St, y, xx, y, xx + 1)})
+      [] d = 4 -> Cardinality({xx \in x .. w - 2 : Step(h, w, St, y, xx, y, xx + 1)})
+(* crossings of the half-line going up from just left-above the centre of cell (y, x): horizontal steps in rows above *)
+InsideLoop(h, w, St, y, x) ==
+    LET fx == IF x = 0 THEN 0 ELSE x - 1          \* the face column left of the cell (or right of it in column 0)
+        fy == IF y = 0 THEN 0 ELSE y - 1
+    IN  Cardinality({yy \in 0 .. fy : Step(h, w, St, yy, fx, yy, fx + 1)}) % 2 = 1
+CastleWall(h, w, arrows, colours, St) ==
+    \A y \in 0 .. h - 1, x \in 0 .. w - 1 :
+        LET a == At(arrows, w, y, x)  c == At(colours, w, y, x) IN
+        a # YEmpty =>
+           /\ Cell(w, y, x) \notin Visited(h, w, St)
+           /\ a \div 100 \in 1 .. 4 => SegsOnRay(h, w, St, y, x, a \div 100) = a % 100
+           /\ c = 1 => InsideLoop(h, w, St, y, x)
+           /\ c = 2 => ~InsideLoop(h, w, St, y, x)
+
+(* compass: clues <<cell, up, left, down, right>> (< 0 = blank); one compass per region; the numbers count the cells of
+   the region strictly above / left of / below / right of the compass.  lab: cell -> index of its compass (0-based) *)
+Compass(h, w, clues, lab) ==
+    /\ \A k \in DOMAIN clues : lab[clues[k][1] + 1] = k - 1
+    /\ \A k \in DOMAIN clues : ConnCells(h, w, {c \in Cells(h, w) : lab[c + 1] = k - 1})
+    /\ \A k \in DOMAIN clues :
+          LET R == {c \in Cells(h, w) : lab[c + 1] = k - 1}  cy == RowOf(w, clues[k][1])  cx == ColOf(w, clues[k][1]) IN
+          /\ clues[k][2] >= 0 => Cardinality({c \in R : RowOf(w, c) < cy}) = clues[k][2]
+          /\ clues[k][3] >= 0 => Cardinality({c \in R : ColOf(w, c) < cx}) = clues[k][3]
+          /\ clues[k][4] >= 0 => Cardinality({c \in R : RowOf(w, c) > cy}) = clues[k][4]
+          /\ clues[k][5] >= 0 => Cardinality({c \in R : ColOf(w, c) > cx}) = clues[k][5]
 =============================================================================
